@@ -783,11 +783,14 @@ func c20GenChoice(r *Rng, doc J, thorough bool) (c20Choice, []string) {
 	if r.Chance(20) {
 		c.ImportMapping = map[string]string{"other.yaml": "example.com/other"}
 	}
-	if r.Chance(25) {
+	if r.Chance(45) {
 		c.Compat.OldAliasing = r.Bool()
 		c.Compat.OldMergeSchemas = r.Bool()
 		c.Compat.AlwaysPrefixEnumValues = r.Bool()
 		c.Compat.ApplyChiMiddlewareFirstToLast = r.Bool()
+		c.Compat.ApplyGorillaMiddlewareFirstToLast = r.Bool()
+		c.Compat.OldEnumConflicts = r.Bool()
+		c.Compat.DisableFlattenAdditionalProperties = r.Bool()
 		c.Compat.DisableRequiredReadOnlyAsPointer = r.Bool()
 	}
 	if r.Chance(15) {
@@ -870,10 +873,18 @@ func c20Express(r *Rng, mode string, c c20Choice, flags []string) (map[string]st
 		}
 		return o
 	}
+	// the documented key of every compatibility switch, written out by hand: marshalling the struct would take the
+	// key names from the very tags under test
 	compat := map[string]interface{}{}
-	cb, _ := yaml.Marshal(c.Compat)
-	_ = yaml.Unmarshal(cb, &compat)
-	delete(compat, "circular-reference-limit")
+	for key, on := range map[string]bool{
+		"old-merge-schemas": c.Compat.OldMergeSchemas, "old-enum-conflicts": c.Compat.OldEnumConflicts, "old-aliasing": c.Compat.OldAliasing,
+		"disable-flatten-additional-properties": c.Compat.DisableFlattenAdditionalProperties, "disable-required-readonly-as-pointer": c.Compat.DisableRequiredReadOnlyAsPointer,
+		"always-prefix-enum-values": c.Compat.AlwaysPrefixEnumValues, "apply-chi-middleware-first-to-last": c.Compat.ApplyChiMiddlewareFirstToLast,
+		"apply-gorilla-middleware-first-to-last": c.Compat.ApplyGorillaMiddlewareFirstToLast} {
+		if on {
+			compat[key] = true
+		}
+	}
 	tplDir := ""
 	if c.Templates != nil {
 		tplDir = "tpl"
